@@ -287,8 +287,32 @@ where
 pub struct ReadableSystemTime(pub SystemTime);
 impl Display for ReadableSystemTime {
     fn fmt(&self, f: &mut std::fmt::Formatter<'_>) -> std::fmt::Result {
-        let format = DateTime::<Utc>::from(self.0).format("%Y-%m-%d %H:%M:%S%.3f %Z (%s%.9f)");
-        Display::fmt(&format, f)
+        // `DateTime::from(SystemTime)` panics for times outside of chrono's range, so do the
+        // conversion by hand and fall back to the raw value for those.
+        let (secs, nanos) = match self.0.duration_since(SystemTime::UNIX_EPOCH) {
+            Ok(duration) => (
+                i64::try_from(duration.as_secs()).ok(),
+                duration.subsec_nanos(),
+            ),
+            Err(e) => {
+                let duration = e.duration();
+                let secs = i64::try_from(duration.as_secs()).ok();
+                if duration.subsec_nanos() == 0 {
+                    (secs.map(|s| -s), 0)
+                } else {
+                    (
+                        secs.map(|s| -s - 1),
+                        1_000_000_000 - duration.subsec_nanos(),
+                    )
+                }
+            }
+        };
+        match secs.and_then(|secs| DateTime::<Utc>::from_timestamp(secs, nanos)) {
+            Some(date_time) => {
+                Display::fmt(&date_time.format("%Y-%m-%d %H:%M:%S%.3f %Z (%s%.9f)"), f)
+            }
+            None => write!(f, "{:?} (out of range)", self.0),
+        }
     }
 }
 impl Debug for ReadableSystemTime {
